@@ -110,6 +110,7 @@ def body_model(cube, **kw):
     ORDER_assets = idx(kw['pa'], 6)
     ORDER_rows = idx(kw['pr'], 6)
     delete = bool(kw['del'])
+    ch = idx(kw['ch'], 3) if 'ch' in kw else 0
     with notrace(), reclimit():
         ing = install()
         DB.clear()
@@ -128,6 +129,11 @@ def body_model(cube, **kw):
             links.append(('Dup_%s_O' % T, 'dg1' if T == 'G1' else 'dg2', [0], 'do1' if T == 'G1' else 'do2', [2]))
         if bits[4]:
             links.append(('L2', 'as2', [0], 'os2', [1]))
+        if ch == 1:
+            links.append(('Chain', 'prv', [1], 'nxt', [1]))          # an asset linked to itself
+        elif ch == 2:
+            links.append(('Chain', 'prv', [1], 'nxt', [2]))
+            links.append(('Chain', 'prv', [2], 'nxt', [2]))
         m, A = model_from(lcf, {'types': [T, 'O', 'O'], 'ids': [7, 0, -3], 'links': links})
         if delete:
             DB['db'] = {'nodes': ['junk'], 'rels': ['junk'], 'creates': 0, 'commits': 0}
@@ -174,6 +180,7 @@ def body_graph(cube, **kw):
     from maltoolbox.attackgraph import AttackGraph
     from maltoolbox.attackgraph.analyzers.apriori import calculate_viability_and_necessity
     link, dval, ana, att, noasset = bool(kw['l']), pick(kw['d'], [None, 1.0, 0.3]), bool(kw['an']), bool(kw['at']), bool(kw['na'])
+    rmn = bool(kw['rmn']) if 'rmn' in kw else False
     with notrace(), reclimit():
         ing = install()
         DB.clear()
@@ -196,6 +203,8 @@ def body_graph(cube, **kw):
             x = AttackGraphNode(type='or', name='loose')
             g.add_node(x)
             g.nodes[0].children.append(x); x.parents.append(g.nodes[0])
+        if rmn:
+            g.remove_node(g.nodes[1])        # node ids are no longer 0..n-1 in list order
         ing.ingest_attack_graph(g, 'uri', 'user', 'pw', 'agdb', delete=False)
         db = DB['agdb']
         if db['creates'] != 1 or db['commits'] != 1:
@@ -226,18 +235,18 @@ def body_graph(cube, **kw):
 
 
 def queries(tier):
-    ps = [I('t0', 0, 2)] + [B('b%d' % i) for i in range(5)] + [I('pa', 0, 5), I('pr', 0, 5), B('del')]
-    pre = ['b0 + b1 + b2 + b3 + b4 <= 3', 'pa == pr'] if tier == 'quick' else ['b0 + b1 + b2 + b3 + b4 <= 4']
+    ps = [I('t0', 0, 2)] + [B('b%d' % i) for i in range(5)] + [I('ch', 0, 2), I('pa', 0, 5), I('pr', 0, 5), B('del')]
+    pre = ['b0 + b1 + b2 + b3 + b4 <= 3', 'pa == pr', 'ch == 0 or b0 + b1 + b2 + b3 + b4 <= 1'] if tier == 'quick' else ['b0 + b1 + b2 + b3 + b4 <= 4']
     qs = [Query(name='model', body=body_model, params=ps, pre=pre, split=['t0', 'del'] if tier == 'quick' else ['t0', 'del', 'pa'],
                 timeout=600 if tier == 'quick' else 1700,
-                witnesses=[({}, {'t0': 0, 'b0': True, 'b1': False, 'b2': True, 'b3': True, 'b4': False, 'pa': 3, 'pr': 3, 'del': True}),
-                           ({}, {'t0': 2, 'b0': True, 'b1': False, 'b2': False, 'b3': False, 'b4': False, 'pa': 0, 'pr': 0, 'del': False})],
+                witnesses=[({}, {'t0': 0, 'b0': True, 'b1': False, 'b2': True, 'b3': True, 'b4': False, 'ch': 1, 'pa': 3, 'pr': 3, 'del': True}),
+                           ({}, {'t0': 2, 'b0': True, 'b1': False, 'b2': False, 'b3': False, 'b4': False, 'ch': 2, 'pa': 0, 'pr': 0, 'del': False})],
                 bound='3-asset L_INH models (ids 7, 0, -3; first asset G1/G2/Am; bounded subsets of 5 links incl. two associations between the same pair and '
-                      'duplicate-named Dup classes) ingested into a recording database stub and read back with get_model; result rows returned in an order '
+                      'duplicate-named Dup classes, and a self-typed association Chain with an asset linked to itself) ingested into a recording database stub and read back with get_model; result rows returned in an order '
                       'chosen by symbolic picks (asset rows: all 6 permutations; relationship rows: reversal and rotation)'),
-          Query(name='graph', body=body_graph, params=[B('l'), I('d', 0, 2), B('an'), B('at'), B('na')], timeout=400,
-                witnesses=[({}, {'l': True, 'd': 1, 'an': True, 'at': True, 'na': True})],
-                bound='attack graph of a 2-asset L_MINI model (link, defense value, analysis, attacker, an extra node without asset): one database node per '
+          Query(name='graph', body=body_graph, params=[B('l'), I('d', 0, 2), B('an'), B('at'), B('na'), B('rmn')], timeout=400,
+                witnesses=[({}, {'l': True, 'd': 1, 'an': True, 'at': True, 'na': True, 'rmn': True})],
+                bound='attack graph of a 2-asset L_MINI model (link, defense value, analysis, attacker, an extra node without asset, a node removed so that ids are not dense): one database node per '
                       'attack step with its attributes, one relationship per edge')]
     return qs
 
